@@ -36,6 +36,7 @@ fn zk_toggle_piece() {
     k.add_or_remove_piece(p, s);
     let t = TABLE.get().unwrap();
     assert!(k.0 == old ^ t.pieces[color_idx(p.get_color())][kind_idx(p)][(s.rank * 8 + s.file) as usize]);
+    kani::cover!(true, "harness end reachable");
 }
 
 /// the slot index is injective in (colour, kind, square): two different components never share a table word (C05)
@@ -47,6 +48,7 @@ fn zk_slot_injective() {
     let i2 = (usize::from(p2.get_color()), usize::from(p2), usize::from(s2));
     assert!(i1.0 < 2 && i1.1 < 6 && i1.2 < 64);
     assert!((i1 == i2) == (p1 == p2 && s1 == s2));
+    kani::cover!(true, "harness end reachable");
 }
 
 /// LEDGER zk_toggle_right
@@ -60,6 +62,7 @@ fn zk_toggle_right() {
     let (ck, idx) = match c { 0 => (CastlingKind::WhiteKingside, 0usize), 1 => (CastlingKind::WhiteQueenside, 1), 2 => (CastlingKind::BlackKingside, 2), _ => (CastlingKind::BlackQueenside, 3) };
     k.change_castling_rights(ck);
     assert!(k.0 == old ^ TABLE.get().unwrap().castling[idx]);
+    kani::cover!(true, "harness end reachable");
 }
 
 /// LEDGER zk_toggle_ep
@@ -72,6 +75,7 @@ fn zk_toggle_ep() {
     kani::assume(f < 8);
     k.change_en_passant(f);
     assert!(k.0 == old ^ TABLE.get().unwrap().en_passant[f as usize]);
+    kani::cover!(true, "harness end reachable");
 }
 
 /// LEDGER zk_toggle_turn
@@ -83,4 +87,5 @@ fn zk_toggle_turn() {
     k.change_turn();
     assert!(k.0 == old ^ TABLE.get().unwrap().white_turn);
     assert!(ZKey::new().0 == 0);
+    kani::cover!(true, "harness end reachable");
 }
